@@ -53,7 +53,7 @@ Proof.
   (* the state after WriteHeader *)
   assert (Ets : tstep ts (TWriteHeader [nm] c perm) =
                 (mkT (seth s (fst (create (heap s) 0 nm (empty_node KReg perm)))) (nset (List.length (heap s)) (c, true) (t_te ts)) (t_rc ts), ONum 1%Z)).
-  { cbn [tstep]. unfold t_writeheader. fold s. rewrite Hd, Hg, Hb, Hr, Hl. reflexivity. }
+  { cbn [tstep]. unfold t_writeheader, t_wh. fold s. rewrite Hd, Hg, Hb, Hr, Hl. reflexivity. }
   unfold ts'. rewrite Ets. cbn [fst snd]. split; [reflexivity|].
   set (h' := fst (create (heap s) 0 nm (empty_node KReg perm))).
   set (i := List.length (heap s)).
